@@ -17,9 +17,9 @@
 //    along with this program.  If not, see <https://www.gnu.org/licenses/>.
 
 use binascii::hex2bin;
-use flate2::write::ZlibDecoder;
+use flate2::read::ZlibDecoder;
 use lzw::{Decoder, DecoderEarlyChange, LsbReader};
-use std::io::Write;
+use std::io::Read;
 use std::num::Wrapping;
 use std::panic;
 
@@ -82,36 +82,29 @@ impl BufferTransformT for FlateDecode<'_> {
             })
             .unwrap_or(1);
 
-        let mut decoder = ZlibDecoder::new(Vec::new());
-
-        // PDF streams can have bytes trailing the filter content, so
-        // write_all() could cause spurious errors due to the trailing
-        // bytes not being consumed by the decoder.  Since write() has
-        // an internal consuming loop, we could rely on it to consume
-        // all relevant bytes in a single call.
-
-        if let Err(e) = decoder.write(buf.buf()) {
-            let err = ErrorKind::TransformError(format!("flatedecode write error: {}", e));
+        // PDF streams can have bytes trailing the filter content.  The
+        // read-side decoder stops at the end of the zlib stream and
+        // leaves such bytes alone, while read_to_end() drains the
+        // decoder completely (a single write() into the write-side
+        // decoder only yields the first 32KiB of output) and fails on
+        // a truncated or corrupt stream instead of returning the part
+        // decoded so far.
+        let mut decoder = ZlibDecoder::new(buf.buf());
+        let mut decoded = Vec::new();
+        if let Err(e) = decoder.read_to_end(&mut decoded) {
+            let err = ErrorKind::TransformError(format!("flatedecode error: {}", e));
             let loc = buf.get_location();
             return Err(locate_value(err, loc.loc_start(), loc.loc_end()))
         };
-        // otherwise, all bytes were consumed.
 
-        match decoder.finish() {
-            Err(e) => {
-                let err = ErrorKind::TransformError(format!("flatedecode finish error: {}", e));
-                let loc = buf.get_location();
-                Err(locate_value(err, loc.loc_start(), loc.loc_end()))
-            },
-            Ok(decoded) => flate_lzw_filter(
-                decoded,
-                &buf.get_location(),
-                predictor as usize,
-                colors as usize,
-                columns as usize,
-                bitspercolumn as usize,
-            ),
-        }
+        flate_lzw_filter(
+            decoded,
+            &buf.get_location(),
+            predictor as usize,
+            colors as usize,
+            columns as usize,
+            bitspercolumn as usize,
+        )
     }
 }
 
